@@ -148,7 +148,12 @@ def unit_module(modname, timeout_ms=10000):
         except Exception as e:
             out["skipped"].append("%s: %r" % (C.__name__, e))
             continue
-        uni = set(x[2:] for x in sa | da) | set(["zz_unrelated"])
+        # every ParticleArray carries tag/pid/gid: "tag" stands for them
+        # and is always present (without it the model admits an array whose
+        # names equal the equation's needs, which the strict-subset test of
+        # the checker rejects with "missing properties set()" - no real
+        # array is in that state)
+        uni = set(x[2:] for x in sa | da) | set(["zz_unrelated", "tag"])
         if len(uni) > 40:
             out["skipped"].append("%s: %d names" % (C.__name__, len(uni)))
             continue
@@ -160,6 +165,7 @@ def unit_module(modname, timeout_ms=10000):
             neg = [(z3.Not(m), 1) for m in pd.mem.values()] + \
                   [(z3.Not(m), 1) for m in ps.mem.values()]
             c.assume_unchecked(z3.PbLe(neg, MAX_MISSING))
+            c.assume_unchecked(z3.And(pd._m("tag"), ps._m("tag")))
             arrays = [ModelArray("d", pd), ModelArray("s", ps)]
             eq = instantiate(C, "d", srcs)
             try:
@@ -226,7 +232,8 @@ def unit_module(modname, timeout_ms=10000):
                         z3.And(really, z3.Implies(incomplete, named)),
                         timeout_ms=timeout_ms)
                     what = "%s: error names the equation and only really " \
-                        "missing names" % C.__name__
+                        "missing names (message %r)" % (C.__name__,
+                                                        msg[:200])
                 if r == "unsat":
                     out["discharged"] += 1
                 elif r == "sat":
